@@ -17,8 +17,8 @@ def oracle(c):
 
 
 def run(ctx):
-    n = 24 if ctx.tier == "quick" else 1000
-    cases = cc.gen_cases(ctx, MODE, n, ctx.seed, maxsnaps=40 if ctx.tier == "quick" else 400)
+    n = 24 if ctx.tier == "quick" else 250
+    cases = cc.gen_cases(ctx, MODE, n, ctx.seed, maxsnaps=40 if ctx.tier == "quick" else 60)
     ctx.last_cases = cases
     sm = []
     for c in cases:
